@@ -683,7 +683,10 @@ fn serve_h2(s: TcpStream, bk: &str, obs: &str, scripts: &[ReqSpec], healthy: boo
                         "reset" => { if let Some(r) = &raw { set_linger0(r); } drop(c); drop(raw); return; }
                         "garbage" => {
                             if spec.k % 2 == 1 { std::thread::sleep(Duration::from_millis(120)); }
-                            c.send_raw(GARBAGE);
+                            // on HTTP/2 "not HTTP at all" must be invalid under every frame alignment: a short blob
+                            // can look like the start of a frame of unknown type (ignored per RFC 9113) whose payload
+                            // never comes, i.e. a stall. 0xff.. is a frame far beyond any SETTINGS_MAX_FRAME_SIZE.
+                            c.send_raw(&[0xffu8; 1024]);
                         }
                         "rststream" => { c.send(&Frame::rst(f.sid, 0x2)); }
                         _ => {
@@ -1256,7 +1259,8 @@ pub fn universal_checks(o: &ReqObs, spec: &ReqSpec) -> Vec<(String, Value)> {
     if o.status == Some(200) {
         let full = full_body(o.idx, spec.body);
         // bytes a backend sends inside a content-length body are its body, whatever they are
-        let garbage_body = spec.fault == "garbage" && spec.framing != "chunked";
+        // (inside a chunk the bytes up to the announced chunk size are data too)
+        let garbage_body = spec.fault == "garbage";
         if !full.starts_with(&o.body) && !garbage_body {
             v.push(("corrupt-body".to_string(), json!({"r": o.idx, "got": String::from_utf8_lossy(&o.body[..o.body.len().min(160)])})));
         } else if o.complete && o.body.len() != full.len() && spec.framing != "close" && !garbage_body {
